@@ -39,9 +39,22 @@ def _guard_alternatives(test):
     return [test]
 
 
-def find_memo_sites(model):
+def find_memo_sites(model, ctx=None):
+    """with ctx: functions that call private helpers are looked at with the helpers inlined, so a
+    memo kept through a helper (`return self._memoized(self.x_cache, key, self._compute_x)`) is the
+    same site as the hand-written `if key not in self.x_cache: ...`"""
     sites = []
+    funcs = []
     for f in model.all_funcs():
+        if ctx is not None and f.kind != 'cached_property':
+            try:
+                g = ctx.flat(f)
+            except Exception:
+                g = None
+            if g is not None and getattr(g, 'inlined', None):
+                f = g
+        funcs.append(f)
+    for f in funcs:
         if f.kind == 'cached_property':
             rets = [n for n in walk_no_nested(f.node) if isinstance(n, ast.Return) and n.value is not None]
             for r in rets:
